@@ -107,6 +107,7 @@ func runC13(e *Env) {
 	c13Clean(e, paths)
 	c13Resolve(e, paths)
 	c13Mounts(e, paths)
+	c13MountSessions(e)
 	c13LocalFS(e, paths)
 }
 
@@ -355,6 +356,73 @@ func c13Mounts(e *Env, paths []string) {
 	}
 }
 
+// 3b. sessions on ONE VirtualOS: lookups of a small pool of (mostly relative) paths
+// interleaved with Chdir.  The answer to a lookup must be findMount at the CURRENT working
+// directory (theorem `session_answers`): nothing may be remembered from earlier lookups of
+// the same path string under another working directory.
+func c13MountSessions(e *Env) {
+	rng := e.Rng.Fork()
+	pool := []string{"x", "a/x", "./x", "../x", "b/../x", "a", ".", "..", "/a/x", "/x", "b/a/x", "x/", "../a/x", "../ab/x"}
+	cwds := []string{"/", "/a", "/a/b", "/b", "/ab", "/b/a", "/a/", "/a/b/a", "a"}
+	sessions, steps := 40, 60
+	if !e.Quick {
+		sessions, steps = 600, 120
+	}
+	for si := 0; si < sessions; si++ {
+		layout := c13Layouts[si%len(c13Layouts)]
+		var log []recEntry
+		mounts := map[string]*ros.Mount{}
+		hexMounts := make([]string, len(layout))
+		for i, t := range layout {
+			mounts[t] = &ros.Mount{Source: recFS{name: t, log: &log}, Target: t, Type: "rec"}
+			hexMounts[i] = Hex(t)
+		}
+		msField := strings.Join(hexMounts, ",")
+		vos := ros.NewVirtualOS(context.Background(), ros.WithMounts(mounts), ros.WithCwd("/"))
+		var hist []string
+		for st := 0; st < steps; st++ {
+			if rng.Chance(30) {
+				d := Pick(rng, cwds)
+				vos.Chdir(d)
+				hist = append(hist, "cd "+d)
+				e.R.H("session_op", "chdir")
+				continue
+			}
+			cwd, _ := vos.Getwd()
+			p := Pick(rng, pool)
+			log = log[:0]
+			_, _ = vos.Stat(p)
+			hist = append(hist, "stat "+p)
+			e.R.H("session_op", "lookup")
+			f := strings.Split(e.O.Ask("C13", "mount", Hex(cwd), Hex(p), msField), "\t")
+			goImpl := "none"
+			if len(log) > 0 {
+				goImpl = "some " + Hex(log[0].mount) + " " + Hex(log[0].paths[0])
+			}
+			tail := hist
+			if len(tail) > 8 {
+				tail = tail[len(tail)-8:]
+			}
+			c := fmt.Sprintf("session mounts=%q ...%s (cwd=%q)", layout, strings.Join(tail, "; "), cwd)
+			e.R.Case(fmt.Sprintf("session %q cwd=%q path=%q after %d chdirs", layout, cwd, p, strings.Count(strings.Join(hist, ";"), "cd ")), true)
+			if len(f) != 3 {
+				e.R.Mismatch(c, "-", strings.Join(f, " "), "oracle reply malformed")
+				continue
+			}
+			if goImpl != f[0] {
+				e.R.Mismatch(c, goImpl, f[0], "VirtualOS.findMount in a session vs C13.findMount at the current working directory")
+				goMount := "none"
+				if len(log) > 0 {
+					goMount = "some " + Hex(log[0].mount)
+				}
+				if goMount != f[1] {
+					e.R.Spec(c, fmt.Sprintf("served by %s, spec (longest component-wise prefix at the current working directory) says %s", goMount, f[1]), "")
+				}
+			}
+		}
+	}
+}
+
 type snap map[string]string
 
 func snapshot(root, skip string) snap {
@@ -401,6 +469,27 @@ func diffSnap(a, b snap) string {
 // 4. every localfs operation against a temp tree with sentinels outside the base: nothing
 // outside the base may be created, changed, removed or read.
 func c13LocalFS(e *Env, paths []string) {
+	orig, _ := os.Getwd()
+	defer os.Chdir(orig)
+	// the base as an absolute path, and spelled relative to the process's working directory
+	// (".", "./", "a/..", "base", …): every spelling that localfs.New accepts must confine
+	// exactly like the absolute one
+	type spelling struct{ chdir, base string }
+	spellings := []spelling{{"", ""}, {"base", "."}, {"base", "./"}, {"base", "a/.."}, {"base", "./a/b/../../."}, {".", "base"}, {".", "./base/"}, {".", "base/a/.."}, {"base/a", ".."}}
+	for i, sp := range spellings {
+		n := 4000
+		if !e.Quick {
+			n = 60000
+		}
+		if i > 0 {
+			n /= 10
+		}
+		c13LocalFSWith(e, paths, sp.chdir, sp.base, n)
+		os.Chdir(orig)
+	}
+}
+
+func c13LocalFSWith(e *Env, paths []string, chdirTo, baseSpelling string, n int) {
 	outer, err := os.MkdirTemp("", "verif-c13-")
 	if err != nil {
 		e.R.Note("cannot create temp tree: %v", err)
@@ -418,10 +507,27 @@ func c13LocalFS(e *Env, paths []string) {
 	os.Setenv("TMPDIR", systmp)
 	defer os.Unsetenv("TMPDIR")
 
-	lfs, err := localfs.New(context.Background(), localfs.WithBase(base))
+	given := base
+	label := "<tmp>/base"
+	if baseSpelling != "" {
+		if err := os.Chdir(filepath.Join(outer, chdirTo)); err != nil {
+			e.R.Note("chdir: %v", err)
+			return
+		}
+		given = baseSpelling
+		label = fmt.Sprintf("%q (working directory <tmp>/%s)", baseSpelling, chdirTo)
+	}
+	lfs, err := localfs.New(context.Background(), localfs.WithBase(given))
 	if err != nil {
-		e.R.Note("localfs.New: %v", err)
+		// ".." from <tmp>/base/a is <tmp>/base, but a base starting with ".." is refused by New: as modelled
+		if nb := e.O.Ask("C13", "newbase", Hex(given)); nb != "reject" {
+			e.R.Mismatch("localfs.New base="+label, "rejected: "+err.Error(), nb, "localfs.New vs C13.newBase")
+		}
+		e.R.Case("localfs.New base="+label+" rejected", true)
 		return
+	}
+	if nb := e.O.Ask("C13", "newbase", Hex(given)); nb == "reject" {
+		e.R.Mismatch("localfs.New base="+label, "accepted", nb, "localfs.New vs C13.newBase")
 	}
 	type op struct {
 		name string
@@ -480,10 +586,6 @@ func c13LocalFS(e *Env, paths []string) {
 		}},
 	}
 	rng := e.Rng.Fork()
-	n := 4000
-	if !e.Quick {
-		n = 60000
-	}
 	before := snapshot(outer, base)
 	directed := []string{"", ".", "..", "/", "../sentinel.txt", "/../sentinel.txt", "a/../../sentinel.txt", "../baseX",
 		"../a", "a/../../a", "..a", "/..", "a/b/../../..", "../base/a/in.txt", "a/in.txt", "./a/../a/in.txt",
@@ -503,7 +605,7 @@ func c13LocalFS(e *Env, paths []string) {
 			continue
 		}
 		out, err := o.run(p, q)
-		c := fmt.Sprintf("localfs base=<tmp>/base op=%s path=%q path2=%q", o.name, p, q)
+		c := fmt.Sprintf("localfs base=%s op=%s path=%q path2=%q", label, o.name, p, q)
 		e.R.Case(c, c13Nontrivial(p))
 		e.R.H("localfs_op", o.name)
 		if err == nil {
